@@ -605,6 +605,28 @@ func c23bLiveDiff(prefix, a, b string) []c23bDiff {
 	return out
 }
 
+// c23bNextCRCDiffers reports whether, in the live DPoS state of a snapshot, the
+// next CRC arbiter set (owner -> node key, normal flag) differs from the current one.
+func c23bNextCRCDiffers(s *c23bSnap) bool {
+	cur, next := map[string]string{}, map[string]string{}
+	for p, cv := range c23bLiveParse(s.LiveDPoS) {
+		for prefix, m := range map[string]map[string]string{"CurrentCRCArbitersMap[": cur, "NextCRCArbitersMap[": next} {
+			if strings.HasPrefix(p, prefix) && (strings.HasSuffix(p, "].nodePk") || strings.HasSuffix(p, "].isNormal") || strings.HasSuffix(p, "]")) {
+				m[strings.TrimPrefix(p, prefix)] = cv[1]
+			}
+		}
+	}
+	if len(cur) != len(next) {
+		return true
+	}
+	for k, v := range cur {
+		if next[k] != v {
+			return true
+		}
+	}
+	return false
+}
+
 func c23bSnapPath(dir, tag string, h uint32) string {
 	return filepath.Join(dir, fmt.Sprintf("%s-%d.json", tag, h))
 }
@@ -1338,6 +1360,11 @@ func c23Restart(c *kit.Ctx, bi, nb int) {
 		for k := range cls {
 			c.Inc("b_field_populated:" + k)
 		}
+		for _, sv := range []uint32{c23bS1, c23bS2} {
+			if sn, ok := loadA[sv]; ok && c23bNextCRCDiffers(sn) {
+				c.Inc("b_save_heights_with_next_crc_differing")
+			}
+		}
 		if s720, ok := loadA[720]; ok {
 			dl, cl, _ := c23bLeafCount(s720)
 			c.Max("max:b_dpos_leaves_at_720", int64(dl))
@@ -1598,6 +1625,12 @@ func c23Restart(c *kit.Ctx, bi, nb int) {
 			}
 		}
 		if hasDefault {
+			// the file that is "default" at h was saved at the save height one period back
+			if sv := (h/720 - 1) * 720; sv >= 720 {
+				if sn, ok := loadA[sv]; ok && c23bNextCRCDiffers(sn) {
+					c.Inc("b_restore_points_with_next_crc_differing")
+				}
+			}
 			c.Inc("b_restores_from_dpos_file")
 		} else {
 			c.Inc("b_restores_by_full_replay")
